@@ -896,12 +896,12 @@ fn gen(a: &Args) {
     }
     let mut rng = Rng::new(a.seed);
     for c in structured_exec() { emit_exec(&mut w, &c, &root, &mut seq, "structured"); }
-    let n_exec = if a.thorough() { 12_000 } else { 900 };
+    let n_exec = if a.thorough() { 12_000 } else { 600 };
     for _ in 0..n_exec { let c = gen_exec_case(&mut rng, a.thorough()); emit_exec(&mut w, &c, &root, &mut seq, "random"); }
-    for _ in 0..(if a.thorough() { 60 } else { 10 }) { let c = gen_bulk_exec(&mut rng); emit_exec(&mut w, &c, &root, &mut seq, "bulk"); }
+    for _ in 0..(if a.thorough() { 60 } else { 6 }) { let c = gen_bulk_exec(&mut rng); emit_exec(&mut w, &c, &root, &mut seq, "bulk"); }
     for q in structured_sql() { emit_sql(&mut w, &mut sut, &q, "structured"); }
     // four of five table sets are queried only outside every recorded finding class (profile `clean`)
-    let (n_sets, per_set) = if a.thorough() { (600, 10) } else { (60, 7) };
+    let (n_sets, per_set) = if a.thorough() { (600, 10) } else { (48, 7) };
     for k in 0..n_sets {
         let p = if k % 5 == 4 { Profile::Any } else { Profile::Clean };
         let tabs = gen_tables(&mut rng, p, a.thorough());
